@@ -530,66 +530,54 @@ def rule_guards(facts, rep):
         l = hir.simp(n["l"])
         return l.get("k") == "index" and self_field(l["e"], field)
 
-    st = hir.visit_with_conds(b["hir"], lambda n: is_store_to(n, "intermediates"))
-    for n, frames in st:
-        idx = hir.simp(n["l"])["i"]
-        rep.check(any(frame_is(f, False, inter_full) for f in frames) and self_field(idx, "intermediate_idx"),
-                  "guards", b["path"], f"intermediates-store@{arm_of(frames)}",
-                  "intermediates[intermediate_idx] = byte only when intermediate_idx != MAX_INTERMEDIATES", loc(b, n))
-    rep.check(len(st) == 1, "guards", b["path"], "intermediates-store-count", f"{len(st)} stores into intermediates", loc(b))
-    ifs = [n for n in hir.walk(tbl["Collect"]["body"]) if n.get("k") == "if" and inter_full(n["c"])]
+    # (c)/(d) the bounded arrays: every index into self.intermediates / self.osc_params inside perform_action is proved in
+    # bounds by the interval engine (path refinements from `==`/`!=` tests and match arms, on top of the inductive invariants
+    # intermediate_idx in 0..=2 and osc_num_params in 0..=16, each store of which is proved to preserve them) — whatever the
+    # arms look like: three-way match, `if idx == MAX { return }`, a shared tail
+    import panics
+    from rules import C04
+    consts = C04.consts_of(facts, [cp.CRATE])
+    cx = panics.Ctx(b, consts, {}, C04.FIELD_INV)
+    n_idx = {"intermediates": 0, "osc_params": 0}
+    for h in panics.hir_sites(b["hir"]):
+        n = h["node"]
+        if h["kind"] not in ("BoundsCheck",) or n.get("k") != "index":
+            continue
+        fld = [f for f in ("intermediates", "osc_params") if self_field(n["e"], f)]
+        if not fld:
+            continue
+        n_idx[fld[0]] += 1
+        try:
+            d = C04.discharge(h, cx, b)
+        except (Unrecognised, KeyError, TypeError, IndexError):
+            d = None
+        is_store = any(x.get("k") == "assign" and hir.simp(x["l"]) is n for x in hir.walk(b["hir"]))
+        rep.check(d is not None, "guards", b["path"], f"{fld[0]}-{'store' if is_store else 'read'}@{arm_of(h['frames'])}:{hirpp.expr(n['i'])[:40]}".replace(" ", "_"),
+                  f"self.{fld[0]}[{hirpp.expr(n['i'])[:40]}] must be provably inside the array ({'the limit of ' + ('2 intermediates' if fld[0] == 'intermediates' else '16 OSC parameters')}): "
+                  f"{d[1] if d else 'no proof — the guard against the limit is missing or too weak'}", loc(b, n))
+    rep.check(n_idx["intermediates"] >= 1 and n_idx["osc_params"] >= 2, "guards", b["path"], "bounded-array-sites", f"{n_idx}", loc(b))
+    for n in hir.walk(b["hir"]):
+        if n.get("k") in ("assign", "assignop") and (self_field(n["l"], "intermediate_idx") or self_field(n["l"], "osc_num_params")):
+            fld = "intermediate_idx" if self_field(n["l"], "intermediate_idx") else "osc_num_params"
+            lo, hi = C04.FIELD_INV[("anstyle_parse::Parser", fld)]
+            frames = [fr for (x, fr) in hir.visit_with_conds(b["hir"], lambda x: x is n)]
+            refine = panics.refinements(frames[0] if frames else [], cx, n)
+            rv = panics.interval(n["r"], cx, refine, at=n)
+            iv = rv
+            if n["k"] == "assignop":
+                cur = panics.interval(n["l"], cx, refine, at=n)
+                iv = (cur[0] + rv[0], cur[1] + rv[1]) if (cur and rv and n["op"] == "AddAssign") else None
+            rep.check(iv is not None and lo <= iv[0] and iv[1] <= hi, "guards", b["path"],
+                      f"{fld}-stays-within-{hi}@{arm_of(frames[0] if frames else [])}:{hirpp.expr(n)[:40]}".replace(" ", "_"),
+                      f"{fld} is only advanced below its limit {hi}: stored value in {iv}", loc(b, n))
+    ifs = [n for n in hir.walk(tbl["Collect"]["body"]) if n.get("k") == "if" and (inter_full(n["c"]) or
+           (hir.simp(n["c"]).get("k") == "bin" and hir.simp(n["c"])["op"] in ("Eq", "Ge") and self_field(hir.simp(n["c"])["l"], "intermediate_idx")))]
     ok = len(ifs) == 1
     if ok:
         t = hir.stmts_of(ifs[0]["t"])
-        e = hir.stmts_of(ifs[0].get("e", {}))
-        ok = (len(t) == 1 and t[0].get("k") == "assign" and self_field(t[0]["l"], "ignoring") and hir.lit_val(t[0]["r"]) is True
-              and len(e) == 2 and e[1].get("k") == "assignop" and e[1]["op"] == "AddAssign" and self_field(e[1]["l"], "intermediate_idx")
-              and hir.lit_val(e[1]["r"]) == 1)
+        ok = (len(t) == 1 and t[0].get("k") == "assign" and self_field(t[0]["l"], "ignoring") and hir.lit_val(t[0]["r"]) is True)
     rep.check(ok, "guards", b["path"], "collect-overflow-sets-ignoring",
               "a third intermediate sets the overflow flag; otherwise store then idx += 1", loc(b, tbl["Collect"]))
-    # (d) every osc_params[...] store and osc_num_params += 1 lies in a match arm on osc_num_params that is not the
-    #     MAX_OSC_PARAMS arm (which must be first and `return`/no-op)
-    def not_max_arm(frames, body_path):
-        for f in frames:
-            if f.get("kind") == "arm":
-                sc = hir.simp(f["scrut"])
-                if sc.get("k") == "local":
-                    # param_idx bound to self.osc_num_params just before
-                    pr = [p for p in f["prior"] if hir.pat_path(p) == "anstyle_parse::MAX_OSC_PARAMS"]
-                    if pr:
-                        return f, sc["name"]
-            if f.get("kind") == "not-arms":
-                pr = [p for p in f["pats"] if hir.pat_path(p) == "anstyle_parse::MAX_OSC_PARAMS"]
-                sc = hir.simp(f["scrut"])
-                if pr and sc.get("k") == "local":
-                    return f, sc["name"]
-        return None, None
-
-    stores = hir.visit_with_conds(b["hir"], lambda n: is_store_to(n, "osc_params"))
-    incs = hir.visit_with_conds(b["hir"], lambda n: n.get("k") == "assignop" and self_field(n["l"], "osc_num_params"))
-    for n, frames in stores:
-        f, var = not_max_arm(frames, b["path"])
-        idx = hir.simp(n["l"])["i"]
-        rep.check(f is not None and hir.is_local(idx, var), "guards", b["path"], f"osc_params-store@{arm_of(frames)}#{arm_index(frames)}",
-                  "osc_params[param_idx] is written only when param_idx != MAX_OSC_PARAMS (16-parameter limit)", loc(b, n))
-    for n, frames in incs:
-        f, var = not_max_arm(frames, b["path"])
-        rep.check(f is not None and n["op"] == "AddAssign" and hir.lit_val(n["r"]) == 1, "guards", b["path"],
-                  f"osc_num_params-inc@{arm_of(frames)}#{arm_index(frames)}",
-                  "osc_num_params += 1 only when it is below MAX_OSC_PARAMS", loc(b, n))
-    rep.check(len(stores) == 4 and len(incs) == 3, "guards", b["path"], "osc-store-count",
-              f"{len(stores)} osc_params stores, {len(incs)} increments (expected 4 and 3)", loc(b))
-    # param_idx is a fresh copy of self.osc_num_params in both arms
-    for v in ("OscPut", "OscEnd"):
-        lets = [s for s in hir.walk(tbl[v]["body"]) if s.get("k") == "let" and s["pat"].get("name") == "param_idx"]
-        rep.check(len(lets) == 1 and self_field(lets[0]["init"], "osc_num_params"), "guards", b["path"], f"param_idx-is-osc_num_params@{v}",
-                  "the matched index is self.osc_num_params", loc(b, tbl[v]))
-    # the MAX arm of OscPut returns before the increment; that of OscEnd does nothing
-    for v, want in (("OscPut", "ret"), ("OscEnd", "tuple")):
-        ms = [n for n in hir.walk(tbl[v]["body"]) if n.get("k") == "match" and hir.is_local(n["scrut"], "param_idx")]
-        ok = len(ms) == 1 and hir.pat_path(ms[0]["arms"][0]["pat"]) == "anstyle_parse::MAX_OSC_PARAMS" and \
-            hir.simp(ms[0]["arms"][0]["body"]).get("k") == want
-        rep.check(ok, "guards", b["path"], f"max-arm@{v}", f"MAX_OSC_PARAMS arm first and `{want}`", loc(b, tbl[v]))
     rep.count(n_sites)
 
 
